@@ -1,6 +1,6 @@
 //! akdmc — model-checking harness for the 20 semantic properties of facebook/akd.
-#![allow(dead_code, unused_imports, unused_variables)]
 //! Usage: akdmc <ID> --tier quick|thorough [--replay <file>]
+#![allow(dead_code, unused_imports, unused_variables)]
 
 mod common;
 mod explore;
